@@ -509,7 +509,9 @@ pub fn local_table_size_one(size: u32, u: usize, u2: Option<usize>, acked: bool,
     let mut sb = h2::server::Builder::new();
     sb.header_table_size(size);
     let cfg = T2Cfg { role: Side::Server, peer_settings: vec![], client: None, server: Some(sb), policy: IoPolicy::default() };
+    NO_HANDSHAKE_ACK.with(|c| c.set(!acked));
     let mut t = T2::new(&cfg, vec![]);
+    NO_HANDSHAKE_ACK.with(|c| c.set(false));
     t.drive(100);
     if acked {
         t.peer_ack_settings();
@@ -545,16 +547,20 @@ pub fn local_table_size_one(size: u32, u: usize, u2: Option<usize>, acked: bool,
 
 /// The same rule with the real *client* as the subject: it advertises SETTINGS_HEADER_TABLE_SIZE = size, the peer acknowledges,
 /// and the response's header block starts with a table size update u.
-pub fn local_table_size_client_one(size: u32, u: usize, u2: Option<usize>, verbose: bool) -> Vec<(String, String, String)> {
+pub fn local_table_size_client_one(size: u32, u: usize, u2: Option<usize>, acked: bool, verbose: bool) -> Vec<(String, String, String)> {
     use std::future::Future;
     let mut v = vec![];
     let mut cb = h2::client::Builder::new();
     cb.header_table_size(size);
     let cfg = T2Cfg { role: Side::Client, peer_settings: vec![], client: Some(cb), server: None, policy: IoPolicy::default() };
+    NO_HANDSHAKE_ACK.with(|c| c.set(!acked));
     let mut t = T2::new(&cfg, vec![]);
+    NO_HANDSHAKE_ACK.with(|c| c.set(false));
     t.drive(100);
-    t.peer_ack_settings();
-    t.drive(100);
+    if acked {
+        t.peer_ack_settings();
+        t.drive(100);
+    }
     let flag = Flag::new(false);
     let w = waker_of(&flag);
     let mut cx = Context::from_waker(&w);
@@ -565,7 +571,7 @@ pub fn local_table_size_client_one(size: u32, u: usize, u2: Option<usize>, verbo
         sr.send_request(simple_request("/t", false), true).ok()
     })
     .flatten();
-    let label = format!("client advertised {} (acknowledged by the peer), size update {}{} at the start of the response", size, u, u2.map(|x| format!(" then {}", x)).unwrap_or_default());
+    let label = format!("client advertised {} ({}), size update {}{} at the start of the response", size, if acked { "acknowledged by the peer" } else { "not yet acknowledged" }, u, u2.map(|x| format!(" then {}", x)).unwrap_or_default());
     let Some((mut rf, _ss)) = sent else {
         v.push(("C14.local-table-size".to_string(), "client-request-not-sent".to_string(), format!("{}: the request could not be sent (connection {:?}, {:?})", label, t.conn_result, panics)));
         t.panics.extend(panics);
@@ -586,12 +592,12 @@ pub fn local_table_size_client_one(size: u32, u: usize, u2: Option<usize>, verbo
     let r = guarded(&mut panics, "poll response", || std::pin::Pin::new(&mut rf).poll(&mut cx));
     let delivered = matches!(&r, Some(Poll::Ready(Ok(resp))) if resp.status().as_u16() == 200);
     let goaway = t.goaway_sent();
-    let bound = size as usize;
+    let bound = if acked { size as usize } else { 4096 };
     if u.max(u2.unwrap_or(0)) <= bound {
         if !delivered || goaway.is_some() {
-            v.push(("C14.local-table-size".to_string(), "legal-update-rejected:client".to_string(), format!("{}: the update is within the bound in force ({}), yet the response was not delivered (GOAWAY {:?}, connection {:?})", label, bound, goaway, t.conn_result)));
+            v.push(("C14.local-table-size".to_string(), format!("legal-update-rejected:client{}", if acked { "" } else { ":unacked" }), format!("{}: the update is within the bound in force ({}), yet the response was not delivered (GOAWAY {:?}, connection {:?})", label, bound, goaway, t.conn_result)));
         }
-    } else if delivered && goaway.is_none() {
+    } else if acked && delivered && goaway.is_none() {
         v.push(("C14.local-table-size".into(), "oversized-update-accepted:client".into(), format!("{}: the update exceeds the acknowledged bound {} and was accepted", label, bound)));
     }
     if verbose {
@@ -611,9 +617,12 @@ pub fn local_table_size_sweep(out: &mut Outcome, vios: &mut VioSet) {
     for client in [false, true] {
         for size in [0u32, 100, 4096, 8192, 65_536] {
             for u in [0usize, 1, 30, 31, 100, 101, 4096, 4097, 8192, 8193, 65_536, 65_537] {
-                // (the T2 handshake acknowledges the subject's initial SETTINGS, so only the acknowledged situation can be set up;
-                // the 'not before the acknowledgement' half is covered for windows by the X2 model)
                 jobs.push((size, u, None, true, client));
+                // 'not before the acknowledgement': while the subject's SETTINGS are unacknowledged the default 4 096 is the
+                // bound in force, so every update up to it must still be accepted (whatever smaller size was advertised)
+                if u <= 4096 {
+                    jobs.push((size, u, None, false, client));
+                }
             }
             // two updates in a row (RFC 7541 4.2: the smallest size, then the final one): each of them is held against the bound
             let z = size as usize;
@@ -625,7 +634,7 @@ pub fn local_table_size_sweep(out: &mut Outcome, vios: &mut VioSet) {
     let found = std::sync::Mutex::new(vec![]);
     par_for(jobs.len(), |i| {
         let (size, u, u2, acked, client) = jobs[i];
-        let vs = if client { local_table_size_client_one(size, u, u2, false) } else { local_table_size_one(size, u, u2, acked, false) };
+        let vs = if client { local_table_size_client_one(size, u, u2, acked, false) } else { local_table_size_one(size, u, u2, acked, false) };
         if !vs.is_empty() {
             found.lock().unwrap().push((jobs[i], vs));
         }
@@ -635,7 +644,7 @@ pub fn local_table_size_sweep(out: &mut Outcome, vios: &mut VioSet) {
             vios.add(Violation { rule, signature: sig, what, replay: json!({"harness": "c14.table", "size": size, "u": u, "u2": u2, "acked": acked, "client": client}) });
         }
     }
-    out.harness("local-header-table-size sweep", json!({"cases": jobs.len(), "server_subject": jobs.len() / 2, "client_subject": jobs.len() / 2}));
+    out.harness("local-header-table-size sweep", json!({"cases": jobs.len(), "server_subject": jobs.len() / 2, "client_subject": jobs.len() / 2, "before_the_acknowledgement": jobs.iter().filter(|j| !j.3).count()}));
     out.add_count("evaluations", jobs.len() as u64);
     out.add_count("traces_validated_against_impl", jobs.len() as u64);
 }
@@ -686,7 +695,8 @@ pub fn replay(v: &serde_json::Value) -> Option<bool> {
     if h == "c14.table" {
         let (size, u) = (v["size"].as_u64().unwrap_or(0) as u32, v["u"].as_u64().unwrap_or(0) as usize);
         let u2 = v["u2"].as_u64().map(|x| x as usize);
-        let vs = if v["client"].as_bool().unwrap_or(false) { local_table_size_client_one(size, u, u2, true) } else { local_table_size_one(size, u, u2, v["acked"].as_bool().unwrap_or(true), true) };
+        let acked = v["acked"].as_bool().unwrap_or(true);
+        let vs = if v["client"].as_bool().unwrap_or(false) { local_table_size_client_one(size, u, u2, acked, true) } else { local_table_size_one(size, u, u2, acked, true) };
         for (r, _, w) in &vs {
             println!("RULE VIOLATED: {} {}", r, w);
         }
